@@ -248,3 +248,5 @@ CHECKS["C05"]["packages"] = ["l2node", "schedh"]
 CHECKS["C04"]["packages"] = ["l2node", "schedh"]
 _also("C05", technique="deviation-bounded scheduler enumeration (restart request vs channel ending) at lock + validator-call granularity", rule="scheduler cells: a restart request for a live received channel racing with the peer's cancel, a local close or a rejecting validation update (the application's validator is a scheduling point), <=1 (thorough 2) preemptions: if the channel ends terminal the transport channel is not re-opened after its close and the connection is not left protected.")
 _also("C04", rule="the restart-request-vs-ending scheduler cells of C05 also decide C04's 'a rejected channel stays failed with its transport closed'.")
+CHECKS["C08"]["packages"] = ["l2node", "schedh"]
+_also("C08", technique="deviation-bounded scheduler enumeration (validation update vs the resumed transport's next block report)", rule="scheduler cells: a channel paused at its limit gets a limit-raising update while the transport, the moment it is resumed, reports the block that reaches the new limit; <=1 (thorough 3) preemptions at lock granularity + the resume point: the report returns the pause signal and the channel ends recorded as paused.")
